@@ -6,9 +6,13 @@ What a session can change about "the same computation" is explicit in the model:
 the insertion order of every dict, the identity (`id`) of every object — PYTHONHASHSEED, the process, a pickling round
 trip act only through these — and, outside the value, the cache root / worker / pid (`RunCfg`).
 
-FULL STATEMENT (kept visible, NOT provable for the tree as it is): `C07_full_statement` — for ALL values.
-PARTIAL theorems under the decidable hypothesis `sortable` (every set's elements / dict's keys totally ordered by
-Python's `<`); witnesses for its negation (D6): `C07_witness_xor`, `C07_witness_xor_none`.
+FULL STATEMENT: `C07_full_statement` — for ALL values.
+Status on the current tree: sets and frozensets are ordered by the digests of their elements (fix 847ae56e, D6 repaired),
+so nothing is required of them any more; the remaining decidable hypothesis `sortable` only concerns dict keys and attribute
+names, which `sorted(mapping)` still compares with Python's `<` (total on the keys of one class; keys of mutually unorderable
+classes raise TypeError in every session alike — a C08 matter, finding D68, not a session dependence).
+`C07_regression_xor` / `C07_regression_xor_none`: the former D6 witnesses, now seed-independent / not raising;
+`C07_old_xor_sorted_by_value` documents the OLD algorithm.
 -/
 namespace PydraModel.Hash
 open PydraModel.Gen
@@ -21,7 +25,7 @@ theorem C07_sorted_total {α : Type} (lt : α → α → Except Err Bool) (ltb :
     (hp : xs.Perm ys) (ha : AgreeOn lt ltb xs) (ht : TotalOn ltb xs) : pySorted lt xs = pySorted lt ys :=
   (pySorted_perm_eq lt ltb xs ys hp ha ht).1
 
-/-- PARTIAL: the hash of a value is the same in every environment — any other iteration / insertion order, any other
+/-- The hash of a value is the same in every environment (FULL for sets; `sortable` only concerns dict keys) — any other iteration / insertion order, any other
     object identities (`v ≃ v'`) — with and without the memo (for tree / DAG values). -/
 theorem C07_value_env_invariant (H : Bytes → Bytes) (v v' : PyVal) (he : Equiv v v') (hs : sortable v = true) :
     (∃ h, hashAlone H v = .ok h ∧ hashAlone H v' = .ok h)
@@ -86,7 +90,7 @@ theorem fieldAlone_equiv (H : Bytes → Bytes) : ∀ (l l' : List (Bytes × PyVa
     obtain ⟨d, h1, h2⟩ := C08_order_indep H v v' hv hs.1
     simp only [fieldAlone, h1, h2, fieldAlone_equiv H xs ys hr hs.2]
 
-/-- PARTIAL: two separately constructed tasks of the same type whose hashed inputs (field values and the Outputs class)
+/-- (`sortable` only concerns dict keys) Two separately constructed tasks of the same type whose hashed inputs (field values and the Outputs class)
     are presentations of the same content get the same checksum, whatever the iteration / insertion orders and
     identities in the two sessions (values: trees / DAGs with totally ordered set elements and dict keys). -/
 theorem C07_checksum_env_invariant (H : Bytes → Bytes) (t t' : TaskDef) (ht : t.ttype = t'.ttype)
@@ -115,28 +119,34 @@ def taskInput (H : Bytes → Bytes) (dx : Bytes) : Bytes :=
     (HashLits.taskSep ++ (HashLits.taskSplitter ++ (dNone ++ (HashLits.taskCombiner ++ (dNone ++ (HashLits.taskNdim ++
     (dNone ++ (HashLits.taskXor ++ (dx ++ (HashLits.taskClose ++ []))))))))))))
 
-/-- WITNESS (D6): a task with the two xor groups `{a,b}`, `{c,d}`, seen with the two iteration orders of its `_xor`
-    frozenset: the byte strings finally fed to `H` embed the two digests of `_xor` and differ as soon as those digests
-    differ (which, by `C08_witness_partial_order`, they do unless `H` collides) — the workflow directory of a split task
-    depends on PYTHONHASHSEED. -/
-theorem C07_witness_xor (H : Bytes → Bytes) (hlen : ∀ x, (H x).length = 16) :
-    Equiv d6a d6b ∧ sortable (taskWithXor d6a) = false
-    ∧ ∃ xa xb, hashAlone H d6a = .ok (H xa) ∧ hashAlone H d6b = .ok (H xb)
-        ∧ hashAlone H (taskWithXor d6a) = .ok (H (taskInput H (H xa)))
-        ∧ hashAlone H (taskWithXor d6b) = .ok (H (taskInput H (H xb)))
-        ∧ (H xa ≠ H xb → taskInput H (H xa) ≠ taskInput H (H xb)) := by
-  refine ⟨(C08_witness_partial_order H hlen).1, by decide, _, _, rfl, rfl, rfl, rfl, ?_⟩
-  intro hne heq
-  unfold taskInput at heq
-  simp only [List.append_cancel_left_eq] at heq
-  obtain ⟨e, _⟩ := List.append_inj heq (by rw [hlen, hlen])
-  exact hne e
+/-- REGRESSION (D6 repaired, fix 847ae56e): a task with the two xor groups `{a,b}`, `{c,d}`, seen with the two iteration
+    orders of its `_xor` frozenset, is hashed to the same value for EVERY digest function — the workflow directory of a
+    split task no longer depends on PYTHONHASHSEED. -/
+theorem C07_regression_xor (H : Bytes → Bytes) :
+    ∃ h, hashAlone H (taskWithXor d6a) = .ok h ∧ hashAlone H (taskWithXor d6b) = .ok h := by
+  obtain ⟨_, _, d, h1, h2⟩ := C08_regression_set_of_sets H
+  have e1 : ∃ xa, hashAlone H d6a = .ok (H xa) ∧ hashAlone H (taskWithXor d6a) = .ok (H (taskInput H (H xa))) :=
+    ⟨_, rfl, rfl⟩
+  have e2 : ∃ xb, hashAlone H d6b = .ok (H xb) ∧ hashAlone H (taskWithXor d6b) = .ok (H (taskInput H (H xb))) :=
+    ⟨_, rfl, rfl⟩
+  obtain ⟨xa, a1, a2⟩ := e1
+  obtain ⟨xb, b1, b2⟩ := e2
+  rw [h1] at a1; rw [h2] at b1
+  simp only [Except.ok.injEq] at a1 b1
+  refine ⟨_, a2, ?_⟩
+  rw [b2, ← a1, ← b1]
 
-/-- WITNESS (D6): an xor group that contains `None` (`{a, b, None}`): `sorted` compares a `str` with `None`, and hashing
-    the task raises TypeError. -/
-theorem C07_witness_xor_none (H : Bytes → Bytes) :
-    hashAlone H (taskWithXor (.set 1 true [.set 2 true [.sc (.str (ascii "a")), .sc (.str (ascii "b")), .sc .none]]))
-      = .error .typeError := rfl
+/-- REGRESSION (D6 repaired): an xor group that contains `None` (`{a, b, None}`) is hashed without TypeError. -/
+theorem C07_regression_xor_none (H : Bytes → Bytes) :
+    ∃ h, hashAlone H (taskWithXor (.set 1 true [.set 2 true [.sc (.str (ascii "a")), .sc (.str (ascii "b")), .sc .none]]))
+      = .ok h := ⟨_, rfl⟩
+
+/-- DOCUMENTATION of the OLD algorithm (before fix 847ae56e): `sorted(obj)` on the xor groups themselves kept whatever
+    iteration order PYTHONHASHSEED produced, and raised TypeError on a group containing `None`. -/
+theorem C07_old_xor_sorted_by_value :
+    sortedByValue [sA, sB] = .ok [sA, sB] ∧ sortedByValue [sB, sA] = .ok [sB, sA]
+    ∧ sortedByValue [.sc (.str (ascii "a")), .sc (.str (ascii "b")), .sc .none] = .error .typeError :=
+  ⟨rfl, rfl, rfl⟩
 
 /-! ### non-vacuity -/
 
